@@ -334,6 +334,10 @@ def run(chk):
     ki_runs(chk, chk.budget(4, 40))
     unique_runs(chk, chk.budget(5, 40))
     stateful_runs(chk, chk.budget(3, 30))
+    chk.variants["execute_state_machine_loop:flaky-arm"] = E.detect_flaky_variant()
+    E.stateful_machine_checks(chk, chk.budget(120, 1500), chk.budget(150, 2000), "C12")
+    for mf in (1, None):
+        E.intermittent_error_probe(chk, "C12", max_failures=mf)
     if chk.thorough:
         rate_runs(chk, 4)
 
